@@ -1029,6 +1029,48 @@ def corpus():
     ]
 
 
+def cache_words():
+    """deterministic words [observe; mutator; observe] for the two caches a table can carry (a sort memo, the
+    indices array): for every mutator m, sort f / m (changing f where possible) / sort f, and
+    indices / m / indices, and the mixed word; the `sorted and aligned with the returned permutation`
+    and `indices == arange(len)` predicates run after every step"""
+    A = {'op': 'ctor', 'cols': [(0, (2, [3, 1, 2])), (1, (3, [30, 10, 20]))], 'keep': None, 'conv': [], 'exc': [], 'copy': True}
+    B = {'op': 'ctor', 'cols': [(0, (2, [9, 8, 7])), (1, (3, [1, 2, 3]))], 'keep': None, 'conv': [], 'exc': [], 'copy': True}
+    muts = {
+        'set_selection': ([{'op': 'setsel', 't': 0, 'src': 1, 'sel': ('idx', [0, 1, 2])}], 0),
+        'set_selection_mask_setitem': ([{'op': 'setsel', 't': 0, 'src': 1, 'sel': ('mask', [True, True, True]), 'via_setitem': True}], 0),
+        'set_selection_partial': ([{'op': 'select', 'src': 1, 'sel': ('idx', [0])},
+                                   {'op': 'setsel', 't': 0, 'src': 2, 'sel': ('idx', [0])}], 0),
+        'setitem': ([{'op': 'setitem', 't': 0, 'name': 0, 'buf': (2, [5, 4, 3])}], 0),
+        'append': ([{'op': 'append', 't': 0, 'src': 1}], 0),
+        'append_self': ([{'op': 'append', 't': 0, 'src': 0}], 0),
+        'append_field': ([{'op': 'append_field', 't': 0, 'name': 2, 'buf': (1, [7, 8, 9])}], 0),
+        'remove_other': ([{'op': 'remove', 't': 0, 'name': 1}], 0),
+        'rename': ([{'op': 'rename', 't': 0, 'conv': [(0, 5)], 'must': True}], 5),
+        'rename_swap': ([{'op': 'rename', 't': 0, 'conv': [(0, 1), (1, 0)], 'must': True}], 0),
+        'convert': ([{'op': 'convert', 't': 0, 'conv': [(2, 3), (3, 1)], 'exc': None}], 0),
+        'set_dtype': ([{'op': 'set_dtype', 't': 0, 'name': 0, 'dt': 0}], 0),
+        'tidy': ([{'op': 'tidy', 't': 0, 'keep': [0]}], 0),
+        'sort_other': ([{'op': 'sort', 't': 0, 'name': 1}, {'op': 'setsel', 't': 0, 'src': 1, 'sel': ('idx', [2, 1, 0])}], 0),
+        'copy': ([{'op': 'from', 'src': 0, 'keep': None, 'conv': [], 'exc': []},
+                  {'op': 'setsel', 't': 2, 'src': 1, 'sel': ('idx', [0, 1, 2])}, {'op': 'sort', 't': 2, 'name': 0},
+                  {'op': 'indices', 't': 2}], 0),
+        'select': ([{'op': 'select', 'src': 0, 'sel': ('idx', [0, 1, 2])},
+                    {'op': 'setsel', 't': 2, 'src': 1, 'sel': ('idx', [0, 1, 2])}, {'op': 'sort', 't': 2, 'name': 0},
+                    {'op': 'indices', 't': 2}], 0),
+        'failed_set_selection': ([{'op': 'setsel', 't': 0, 'src': 1, 'sel': ('idx', [0, 7, 2])}], 0),
+    }
+    words = []
+    for nm, (ms, f_after) in muts.items():
+        so, so2 = {'op': 'sort', 't': 0, 'name': 0}, {'op': 'sort', 't': 0, 'name': f_after}
+        ind = {'op': 'indices', 't': 0}
+        words.append((nm, [A, B, so] + ms + [so2]))
+        words.append((nm, [A, B, ind] + ms + [ind]))
+        words.append((nm, [A, B, so, ind] + ms + [ind, so2, ind]))
+        words.append((nm, [A, B, so] + ms + ms + [so2, so2]))
+    return words
+
+
 def evaluate(ctx, tag, seqs):
     if not ctx.model_ok:
         ctx.notes.append('model did not build: implementation-only predicates were evaluated')
@@ -1067,6 +1109,9 @@ def run(ctx):
     for ops in corpus():
         seqs.append(run_sequence(ctx, DFRA, ops))
         ctx.count('corpus_sequences')
+    for nm, ops in cache_words():
+        seqs.append(run_sequence(ctx, DFRA, ops))
+        ctx.count('cache_words')
     # bounded-exhaustive
     base = ['append01', 'addcol', 'remove0', 'rename13', 'select', 'setsel0L', 'sort', 'copy', 'indices', 'setselL0',
             'selblock', 'selmask', 'copyempty', 'copyone']
